@@ -557,6 +557,15 @@ fn block_literals(thorough: bool) -> Vec<Vec<u8>> {
             }
         }
     }
+    // length fields of every permitted width (1..=9 digits), minimal and zero-padded
+    for nd in 1..=9usize {
+        for p in [&b"abc"[..], b"", b"a\n;,'\"#"] {
+            let mut l = vec![b'#', b'0' + nd as u8];
+            l.extend_from_slice(format!("{:0width$}", p.len(), width = nd).as_bytes());
+            l.extend_from_slice(p);
+            out.push(l);
+        }
+    }
     // non-minimal length fields and other kinds
     for x in ["#15abcde", "#205abcde", "#3005abcde", "#10", "#200", "5", "'x'", "ABC", "#H1", "#0"] {
         out.push(x.as_bytes().to_vec());
